@@ -156,9 +156,8 @@ def _run(prop, tier, replay, seed, plan, tplan, work, t0) -> int:
         print(f'  mode={f["mode"]} source={f["source"]}')
 
     wall = time.time() - t0
-    if replay is None:
+    if replay is None and not os.environ.get('VERIF_NO_EVIDENCE'):
         write_evidence(prop, tier, seed, merged, results, violations, known_seen, harness_errors, wall)
-        gaps = merged.get('gaps', [])
     print(
         f'{prop} tier={tier} seed={seed} evaluations={merged["evaluations"]} '
         f'distinct_nontrivial={merged["distinct_nontrivial"]} violations={violations} '
